@@ -70,7 +70,7 @@ pub fn host_of(mode: &str) -> Option<Host> {
     }
 }
 
-fn op_on<D: Store>(f: &[&str]) -> String {
+fn op_on<D: Store>(f: &[&str], abandon: bool) -> String {
     let instr = f[3];
     let mut d = D::create(host_of(f[4]));
     // jump entries 0..3 so that Expression / And / Or operands have somewhere to go
@@ -91,6 +91,9 @@ fn op_on<D: Store>(f: &[&str]) -> String {
         match build(&mut d, &term) {
             Ok(a) => addrs.push(a),
             Err(e) => return format!("SETUP-ERR {}", e),
+        }
+        if abandon && addrs.len() == 1 {
+            crate::store::abandon_constructions(&mut d);
         }
     }
     let r0 = d.operands().len();
@@ -124,8 +127,11 @@ pub fn op_case(f: &[&str]) -> String {
         return "BAD-CASE fields".into();
     }
     match f[2] {
-        "simple" => op_on::<SimpleStore>(f),
-        "basic" => op_on::<BasicStore>(f),
+        "simple" => op_on::<SimpleStore>(f, false),
+        "basic" => op_on::<BasicStore>(f, false),
+        // constructions started and never ended between building the first and the second operand
+        "simpleabandon" => op_on::<SimpleStore>(f, true),
+        "basicabandon" => op_on::<BasicStore>(f, true),
         s => format!("BAD-CASE store {}", s),
     }
 }
